@@ -4,8 +4,12 @@
    runs the full _update_ems - six half-space cuts, dominance filtering, argmin slot choice incl. the overwrite of slot 0 when the
    buffer is full; an illegal pair changes nothing).  Hypotheses: shapes, stored mask/order current, obs_num_ems <= max_num_ems.
    Completion: an episode that ends after a legal action ends because NO (observed EMS, item) pair is legal any more
-   (C06_BinPack_completion): the packing is maximal w.r.t. the observed EMSs. *)
-Require Import JV.Base.Prelude JV.Base.JaxIndex JV.Base.Codec JV.Base.TimeStep JV.Model.BinPack JV.Proofs.BinPack_lib JV.Proofs.BinPack JV.Proofs.BinPack_obs.
+   (C06_BinPack_completion): the packing is maximal w.r.t. the observed EMSs.
+   Provenance (C06_BinPack_update_ems_origin): every ACTIVE slot of the buffer returned by _update_ems holds either an old active
+   EMS that the placed item does not intersect (kept as it was), or a NON-EMPTY cut of an old active EMS e that the item does
+   intersect: e' = hyper d item e, which is included in e, disjoint from the item and is, point for point, e intersected with the
+   open half-space on the outer side of face d of the item (x < item.x1, x >= item.x2, ...).  Nothing else is ever added. *)
+Require Import JV.Base.Prelude JV.Base.JaxIndex JV.Base.Codec JV.Base.TimeStep JV.Model.BinPack JV.Proofs.BinPack_lib JV.Proofs.BinPack JV.Proofs.BinPack_obs JV.Proofs.BinPack_ems.
 (* a concrete instance: container 4x2x2, two items 2x2x2 and one 3x2x2, buffer of 4 EMSs, 2 observed *)
 Definition ex_c := make_container 4 2 2.
 Definition ex_items := [mkIt 2 2 2; mkIt 2 2 2; mkIt 3 2 2].
@@ -28,6 +32,15 @@ Theorem C06_BinPack_update_ems (Qold Qnew : space -> Prop) es ms isp :
   (forall e d, Qold e -> Qnew (hyper d isp e)) ->
   EInv Qnew (fst (update_ems es ms isp)) (snd (update_ems es ms isp)).
 Proof. exact (update_ems_EInv Qold Qnew es ms isp). Qed.
+Theorem C06_BinPack_update_ems_origin es ms isp k :
+  length es = length ms ->
+  nth k (snd (update_ems es ms isp)) false = true ->
+  let e' := nth k (fst (update_ems es ms isp)) sp0 in
+  (exists j, nth j ms false = true /\ e' = nth j es sp0 /\ sp_intersect isp e' = false) \/
+  (exists j d, nth j ms false = true /\ sp_intersect isp (nth j es sp0) = true /\ sp_empty e' = false /\
+     sp_incl e' (nth j es sp0) = true /\ sp_intersect e' isp = false /\
+     forall px py pz, inside px py pz e' <-> inside px py pz (nth j es sp0) /\ outer_side d isp px py pz).
+Proof. exact (update_ems_active_origin es ms isp k). Qed.
 Theorem C06_BinPack_completion n m obs sparse s a0 a1 e i :
   shape n m s -> consistent obs s -> obs <= m -> inspec obs n a0 a1 -> step_valid s a0 a1 = true ->
   st (snd (step obs sparse s a0 a1)) = LAST -> 0 <= e < obs -> 0 <= i < n -> ~ legal (fst (step obs sparse s a0 a1)) e i.
@@ -36,6 +49,7 @@ Theorem C06_BinPack_checker s : Packing_b s = true -> Packing s.
 Proof. exact (Packing_b_sound s). Qed.
 Print Assumptions C06_BinPack_step.
 Print Assumptions C06_BinPack_completion.
+Print Assumptions C06_BinPack_update_ems_origin.
 Example C06_BinPack_nonvacuous :
   shape_b 3 4 ex_s0 = true /\ Packing_b ex_s0 = true /\ Packing_b ex_s1 = true /\ Packing_b ex_s2 = true
   /\ items_placed ex_s2 = [true; true; false] /\ items_loc ex_s2 = [mkLoc 0 0 0; mkLoc 2 0 0; loc0]
